@@ -794,4 +794,161 @@ theorem wfList_key (t : Tree) (h : wfTree t = true) : wfList (key .repaired t) =
   simpa using this
 
 
+
+/-! ## Part 3: shifts and the cached key -/
+
+theorem shiftLeaf_ne (time : Bool) (k : Nat) (l l' : Leaf) (h : shiftLeaf time k l = some l')
+    (hd : l.dependsOn time = true) : l' ≠ l := by
+  cases l <;> simp [Leaf.dependsOn] at hd <;> simp only [shiftLeaf] at h
+  · split at h
+    · simp at h
+    · cases time <;> simp at h <;> (obtain ⟨_, h⟩ := h; subst h; simp; omega)
+  · split at h
+    · simp at h
+    · cases time <;> simp at h <;> (obtain ⟨_, h⟩ := h; subst h; simp; omega)
+  · subst hd
+    simp at h
+    obtain ⟨_, h⟩ := h; subst h; simp; omega
+
+theorem shiftLeaf_nodep (time : Bool) (k : Nat) (l : Leaf) (hd : l.dependsOn time = false) :
+    shiftLeaf time k l = some l := by
+  cases l <;> simp [Leaf.dependsOn] at hd <;> simp [shiftLeaf, hd]
+
+mutual
+theorem shiftTree_ne : ∀ (time : Bool) (k : Nat) (t t' : Tree), shiftTree time k t = some t' →
+    t.dependsOn time = true → t' ≠ t
+  | time, k, .leaf l, t', h, hd => by
+    simp only [shiftTree, Option.map_eq_some_iff] at h
+    obtain ⟨l', hl, rfl⟩ := h
+    have := shiftLeaf_ne time k l l' hl (by simpa [Tree.dependsOn] using hd)
+    simpa using this
+  | time, k, .bin o a b, t', h, hd => by
+    simp only [shiftTree] at h
+    cases ha : shiftTree time k a <;> cases hb : shiftTree time k b <;> simp [ha, hb] at h
+    subst h
+    simp only [Tree.dependsOn, Bool.or_eq_true] at hd
+    rcases hd with hd | hd
+    · have := shiftTree_ne time k a _ ha hd
+      simp [this]
+    · have := shiftTree_ne time k b _ hb hd
+      simp [this]
+  | time, k, .eval f i as, t', h, hd => by
+    simp only [shiftTree, Option.map_eq_some_iff] at h
+    obtain ⟨as', has, rfl⟩ := h
+    have := shiftArgs_ne time k as as' has (by simpa [Tree.dependsOn] using hd)
+    simpa using this
+theorem shiftArgs_ne : ∀ (time : Bool) (k : Nat) (a a' : Args), shiftArgs time k a = some a' →
+    a.dependsOn time = true → a' ≠ a
+  | time, k, .nil, a', h, hd => by simp [Args.dependsOn] at hd
+  | time, k, .cons t ts, a', h, hd => by
+    simp only [shiftArgs] at h
+    cases ht : shiftTree time k t <;> cases hts : shiftArgs time k ts <;> simp [ht, hts] at h
+    subst h
+    simp only [Args.dependsOn, Bool.or_eq_true] at hd
+    rcases hd with hd | hd
+    · have := shiftTree_ne time k t _ ht hd
+      simp [this]
+    · have := shiftArgs_ne time k ts _ hts hd
+      simp [this]
+end
+
+mutual
+theorem shiftTree_nodep : ∀ (time : Bool) (k : Nat) (t : Tree), t.dependsOn time = false →
+    shiftTree time k t = some t
+  | time, k, .leaf l, hd => by
+    simp [shiftTree, shiftLeaf_nodep time k l (by simpa [Tree.dependsOn] using hd)]
+  | time, k, .bin o a b, hd => by
+    simp only [Tree.dependsOn, Bool.or_eq_false_iff] at hd
+    simp [shiftTree, shiftTree_nodep time k a hd.1, shiftTree_nodep time k b hd.2]
+  | time, k, .eval f i as, hd => by
+    simp [shiftTree, shiftArgs_nodep time k as (by simpa [Tree.dependsOn] using hd)]
+theorem shiftArgs_nodep : ∀ (time : Bool) (k : Nat) (a : Args), a.dependsOn time = false →
+    shiftArgs time k a = some a
+  | time, k, .nil, _ => rfl
+  | time, k, .cons t ts, hd => by
+    simp only [Args.dependsOn, Bool.or_eq_false_iff] at hd
+    simp [shiftArgs, shiftTree_nodep time k t hd.1, shiftArgs_nodep time k ts hd.2]
+end
+
+/-- the cached key, if any, is the key of the tree the object represents now -/
+def Coherent (c : Cfg) (o : Obj) : Prop := o.cache = none ∨ o.cache = some (key c o.tree)
+
+theorem getKey_spec (c : Cfg) (o : Obj) (h : Coherent c o) :
+    (o.getKey c).1 = key c o.tree ∧ (o.getKey c).2.tree = o.tree ∧ Coherent c (o.getKey c).2 := by
+  unfold Obj.getKey
+  rcases h with h | h
+  · simp [h, Coherent]
+  · simp [h, Coherent]
+
+/-- with both resets in place, an object behaves like its tree for every history of calls -/
+theorem run_refines (c : Cfg) : ∀ (hs : List HOp) (o : Obj), Coherent c o →
+    match Obj.run c ⟨true, true⟩ o hs, specRun c o.tree hs with
+    | some (o', outs), some (t', outs') => o'.tree = t' ∧ outs = outs' ∧ Coherent c o'
+    | none, none => True
+    | _, _ => False := by
+  intro hs
+  induction hs with
+  | nil => intro o h; simp [Obj.run, specRun, h]
+  | cons hop hs ih =>
+    intro o h
+    cases hop with
+    | key =>
+      obtain ⟨h1, h2, h3⟩ := getKey_spec c o h
+      have := ih (o.getKey c).2 h3
+      rw [h2] at this
+      simp only [Obj.run, Obj.step, specRun]
+      cases hr : Obj.run c ⟨true, true⟩ (o.getKey c).2 hs <;> cases hsr : specRun c o.tree hs <;>
+        simp [hr, hsr] at this ⊢
+      obtain ⟨a, b, d⟩ := this
+      exact ⟨a, by simp [h1, b], d⟩
+    | shift time steps =>
+      simp only [Obj.run, Obj.step, specRun]
+      cases hsft : shiftTree time steps o.tree with
+      | none => simp
+      | some t' =>
+        have hco : Coherent c ⟨t', if o.sameObject time then o.cache else none⟩ := by
+          by_cases hso : o.sameObject time = true
+          · have ht : t' = o.tree := by
+              unfold Obj.sameObject at hso
+              cases hot : o.tree with
+              | leaf l =>
+                rw [hot] at hso hsft
+                have hd : l.dependsOn time = false := by simpa using hso
+                simp [shiftTree, shiftLeaf_nodep time steps l hd] at hsft
+                exact hsft.symm
+              | bin o' a b => rw [hot] at hso; simp at hso
+              | eval f i as => rw [hot] at hso; simp at hso
+            simp only [hso, if_true]
+            rcases h with h | h
+            · exact Or.inl h
+            · exact Or.inr (by rw [h, ht])
+          · simp only [hso]
+            exact Or.inl rfl
+        have := ih ⟨t', if o.sameObject time then o.cache else none⟩ hco
+        simp only [Option.map_some, if_true]
+        cases hr : Obj.run c ⟨true, true⟩ ⟨t', if o.sameObject time then o.cache else none⟩ hs <;>
+          cases hsr : specRun c t' hs <;> simp [hr, hsr] at this ⊢
+        exact this
+    | set r =>
+      obtain ⟨t, cache⟩ := o
+      have hscal : ∀ r0, Obj.run c ⟨true, true⟩ ⟨.leaf (.scalar r0), cache⟩ (.set r :: hs) =
+          (match Obj.run c ⟨true, true⟩ ⟨.leaf (.scalar r), none⟩ hs with
+           | none => none | some (o'', outs) => some (o'', outs)) := by
+        intro r0
+        simp only [Obj.run, Obj.step, Obj.setValue, if_true, Option.map_some]
+        cases Obj.run c ⟨true, true⟩ ⟨.leaf (.scalar r), none⟩ hs <;> simp
+      cases t with
+      | leaf l =>
+        cases l with
+        | scalar r0 =>
+          have := ih ⟨.leaf (.scalar r), none⟩ (Or.inl rfl)
+          rw [hscal]
+          simp only [specRun]
+          cases hr : Obj.run c ⟨true, true⟩ ⟨.leaf (.scalar r), none⟩ hs <;>
+            cases hsr : specRun c (.leaf (.scalar r)) hs <;> simp [hr, hsr] at this ⊢
+          exact this
+        | _ => simp [Obj.run, Obj.step, Obj.setValue, specRun]
+      | _ => simp [Obj.run, Obj.step, Obj.setValue, specRun]
+
+
 end PorepyVerif.C45
